@@ -1424,7 +1424,11 @@ def _map_tensors(x, f):
 
 
 _AMPLIFYING = {"mul", "div", "true_divide", "addcmul", "addcdiv", "mm", "bmm", "mv", "dot", "addmm", "baddbmm", "convolution", "pow",
-               "reciprocal", "linalg_inv_ex", "_linalg_det"}
+               "reciprocal", "linalg_inv_ex", "_linalg_det",
+               # sums and interpolation cancel: the float32 rounding error of the operands is relative to *their* magnitude,
+               # not to that of the (possibly much smaller) result
+               "add", "sub", "sum", "mean", "cumsum", "grid_sampler_2d", "grid_sampler_3d", "lerp", "avg_pool2d", "avg_pool3d",
+               "upsample_bilinear2d", "upsample_trilinear3d", "upsample_linear1d"}
 
 
 def _amplification(name, args) -> float:
